@@ -124,6 +124,18 @@ def run(ctx):
                 for pre in ("令A = ", "（显示："):
                     tx = pre + lq + "一" + esc + "二" + esc + rq + bad
                     cases.append(dict(id=len(cases), text=tx)); meta.append(("escape-then-error", tx))
+    # LONG RUNS: one character (of every kind the lexer treats in its own way) repeated 9 .. 4097 times, bare and inside every construct that
+    # scans ahead for its end (text literal, back-ticked name, back-tick escape incl. U+, comment forms, number, brackets, indentation)
+    units = ["a", "甲", "1", "F", "0", " ", "\t", "\n", "\r", "“", "”", "「", "`", "（", "）", "【", "】", "{", "}", "，", "、", "；", "：", "+", "-", "*", "/", ".", "=", "#", "%", "不", "注", "\x01", "\ufeff", "\U0001F600"]
+    frames = [("", ""), ("“", "”"), ("“", ""), ("`", "`"), ("`", ""), ("“`U+", "`”"), ("“`", "`”"), ("“`U+", ""), ("// ", ""), ("/* ", " */"), ("/* ", ""), ("注：", ""), ("注：“", "”"), ("注", "："),
+              ("令A = ", ""), ("令A = 【", "】"), ("令A = 1", ""), ("令A = 1.", ""), ("令A = 1*10^", ""), ("（", "）"), ("如果真：\n", "令B = 1"), ("令A = “x” % 【", "】")]
+    for u in units:
+        for n in (9, 17, 33, 257, 4097):
+            if n > 300 and u not in ("a", "F", "1", " ", "“", "`", "（", "【", "注", "\n"): continue
+            for fl, fr in frames:
+                if n > 300 and (fl, fr) not in (("", ""), ("“", "”"), ("“`U+", "`”"), ("`", "`"), ("令A = ", ""), ("令A = 【", "】")): continue
+                tx = fl + u * n + fr
+                cases.append(dict(id=len(cases), text=tx)); meta.append(("long-run", tx))
     seen = set()
     for v in muts:
         k = (v["id"], tuple(v["out"]))
@@ -192,7 +204,7 @@ def run(ctx):
             raise common.NoVerdict("trace spec failed unexpectedly:\n" + common.tail(ttxt))
     cov = dict(traces_validated_against_impl=nlines, samples=[dict(text=texts[777]), dict(mutant=mtexts[5][:200] if mtexts else None)],
                evaluations=len(records) + len(vcases), distinct_nontrivial=len(records),
-               rule="inputs: every text of length <= 3 over 36 character classes (letters, wide characters, digits, blank, TAB, LF, lone CR, every bracket/quote/back-tick, "
+               rule="inputs: LONG RUNS (36 kinds of character repeated 9 / 17 / 33 / 257 / 4097 times, bare and inside 22 frames: literals, back-ticked names, back-tick escapes incl. U+, comments, numbers, brackets, indentation); every text of length <= 3 over 36 character classes (letters, wide characters, digits, blank, TAB, LF, lone CR, every bracket/quote/back-tick, "
                     "punctuation, operators, one-character keywords, 注, control characters, NUL) and a TLC-seeded 1/30 (thorough: all 1.7M) of length 4; every single token "
                     "deletion / duplication / swap of %d grammar-covering programs (TLC layout machine, Mutate) and every prefix (truncation at every character offset) of a sample "
                     "of those mutants; the short texts also as input-variable text. Each input is parsed in a worker process with a 3 s watchdog and its error rendered: exactly one "
